@@ -516,7 +516,7 @@ cdef class HttpParser:
         if enc is not None:
             self._content_encoding = None
             if enc.isascii() and enc.lower() in {"gzip", "deflate", "br", "zstd"}:
-                encoding = enc
+                encoding = enc.lower()
 
         if self._cparser.type == cparser.HTTP_REQUEST:
             method = <str>_http_method[self._cparser.method]
